@@ -35,6 +35,10 @@ class PropBase:
             ok, sig, detail = True, None, None
         except Violation as v:
             ok, sig, detail = False, v.sig, v.detail
+        finally:
+            import shutil
+            for d in ctx.dirs:
+                shutil.rmtree(d, ignore_errors=True)
         res = {
             "ok": ok, "sig": sig, "detail": detail,
             "stats": ctx.stats, "digest": kernel.digest_events(ctx.events),
@@ -64,6 +68,12 @@ class Ctx:
         self.sim_s = 0.0
         self.cfg = dict(doc["cfg"]) if doc else None
         self.steps = []
+        self.dirs = []
+
+    def tmpdir(self, tag="run"):
+        d = kernel.run_dir("%s%d" % (tag, len(self.dirs)))
+        self.dirs.append(d)
+        return d
 
     def rng(self, label):
         return random.Random(kernel.h64(self.seed, label))
